@@ -866,18 +866,38 @@ func relayout(r *rng, t string) string {
 // pattern or text has some capacity (8, 64, 1024 entries): a wide schema between the
 // loading and the checking of another object sweeps such a memo.
 func genWide(r *rng) Project {
-	p := Project{Kind: "jschema", Name: []string{"root", "wide.jst"}[r.n(2)]}
 	n := []int{10, 40, 70, 70, 130, 300}[r.n(6)]
 	if r.small && n > 70 {
 		n = 70
 	}
+	return genWideOf(r, n, -2)
+}
+
+// genWideOf: n properties; only = -2: decide here, -1: mixed kinds, 0..5: that kind.
+func genWideOf(r *rng, n, only int) Project {
+	p := Project{Kind: "jschema", Name: []string{"root", "wide.jst"}[r.n(2)]}
 	base := r.n(1000000)
+	// a third of the wide schemas are of one kind only (all regexes, all enums, …): a
+	// memo of that kind is swept by a schema of moderate size (seeded change c11x, an
+	// LRU of 16 compiled regexes with a check-then-act lookup, was met by one run in
+	// 47 000 before)
+	if only == -2 {
+		only = -1
+		if r.pct(35) {
+			only = r.n(6)
+			n = []int{8, 12, 18, 24, 40}[r.n(5)] // around the usual capacities, below and above
+		}
+	}
 	var sb strings.Builder
 	sb.WriteString("{\n")
 	for i := 0; i < n; i++ {
 		k := base + i*7
 		var v string
-		switch r.n(6) {
+		pick := only
+		if pick < 0 {
+			pick = r.n(6)
+		}
+		switch pick {
 		case 0:
 			v = strconv.Itoa(k+1) + " // {min: " + strconv.Itoa(k) + "}"
 		case 1:
@@ -1002,7 +1022,7 @@ func genProject(r *rng, tornPct int) Project {
 	if (r.focus == "" || r.focus == "jschema") && r.pct(4) {
 		return genAllOfChain(r)
 	}
-	if (r.focus == "" || r.focus == "jschema") && r.pct(3) {
+	if (r.focus == "" || r.focus == "jschema") && r.pct(5) {
 		return genWide(r)
 	}
 	if (r.focus == "" || r.focus == "jschema") && r.pct(3) {
@@ -1708,6 +1728,36 @@ func genWorldC11(seed uint64, tornOthers bool) *World {
 				if ops[len(ops)-1].Kind == "build" {
 					ops = append([]Op{ops[len(ops)-1]}, ops[:len(ops)-1]...)
 				}
+			}
+			w.Tasks[t] = ops
+		}
+	}
+	if r.pct(4) {
+		// Memo under pressure: one task goes through the SAME small set of literals /
+		// patterns / enum lists again and again (several objects of one text - whatever
+		// the library memoises for them is hit), while another loads a schema with many
+		// different ones of the same kind (whatever capacity the memo has is exceeded and
+		// entries are evicted). A lookup that checks and acts in two steps meets the
+		// eviction in between. (Seeded change c11x; nothing else in a world brought a hit
+		// and an eviction of the same memo together more than once in 47 000 runs.)
+		kind := r.n(6)
+		small := genWideOf(r, 3+r.n(14), kind)
+		big := genWideOf(r, 18+r.n(23), kind)
+		w.Objects, w.Shared, shared = nil, nil, -1
+		ntasks = 2 + r.n(2)
+		w.Tasks = make([][]Op, ntasks)
+		for t := 0; t < ntasks; t++ {
+			proj, copies := small, 2+r.n(3)
+			if t == 1 {
+				proj, copies = big, 1+r.n(2)
+			}
+			var ops []Op
+			for k := 0; k < copies; k++ {
+				o := len(w.Objects)
+				w.Objects = append(w.Objects, proj)
+				w.Shared = append(w.Shared, false)
+				ops = append(ops, Op{Obj: o, Kind: "build"})
+				ops = append(ops, objOps(r, o, &proj, 1, 3)...)
 			}
 			w.Tasks[t] = ops
 		}
